@@ -27,6 +27,7 @@ const unknownVersion = "Unknown Snoop Format Version"
 const unkownLinkType = "Unknown Link Type"
 const originalLenExceeded = "Capture length exceeds original packet length"
 const captureLenExceeded = "Capture length exceeds max capture length"
+const recordLenInvalid = "Record length does not match the capture length"
 
 type snoopHeader struct {
 	Version  uint32
@@ -127,7 +128,8 @@ func (r *SnoopReader) readPacketHeader() (ci gopacket.CaptureInfo, err error) {
 	ci.Timestamp = time.Unix(int64(binary.BigEndian.Uint32(r.buf[16:20])), int64(binary.BigEndian.Uint32(r.buf[20:24])*1000)).UTC()
 	ci.Length = int(binary.BigEndian.Uint32(r.buf[0:4]))
 	ci.CaptureLength = int(binary.BigEndian.Uint32(r.buf[4:8]))
-	r.pad = int(binary.BigEndian.Uint32(r.buf[8:12])) - (24 + ci.Length)
+	// the record is 24 header bytes, the included (captured) bytes and padding
+	r.pad = int(binary.BigEndian.Uint32(r.buf[8:12])) - (24 + ci.CaptureLength)
 
 	if ci.CaptureLength > ci.Length {
 		err = errors.New(originalLenExceeded)
@@ -136,6 +138,11 @@ func (r *SnoopReader) readPacketHeader() (ci gopacket.CaptureInfo, err error) {
 
 	if ci.CaptureLength > maxCaptureLen {
 		err = errors.New(captureLenExceeded)
+		return
+	}
+
+	if r.pad < 0 || r.pad > maxCaptureLen {
+		err = errors.New(recordLenInvalid)
 	}
 
 	return
